@@ -685,6 +685,24 @@ func (b *B) Pair() {
 		b.LoadTo(x)
 		b.Emit(isa.Inst{Op: isa.ADD, Rd: b.Dst(), Rs1: x, Rs2: x})
 		b.Tag("waw-alu-load")
+	case 5: // read-modify-write of one line: the store is computed from the load
+		if b.P.NoMem || b.P.NoStores || len(b.Addr) == 0 {
+			b.AluTo(x)
+			b.AluTo(x)
+			b.Tag("waw")
+			break
+		}
+		a := b.Addr[r.Intn(len(b.Addr))]
+		lop, sop := b.loadOp(), b.storeOp()
+		off := b.offsetFor(b.AddrVal[a], 4, true, 192)
+		lineOff := func(sz int) int32 {
+			abs := (int(b.AddrVal[a])+int(off))&^63 + sz*r.Intn(64/sz)
+			return int32(abs - int(b.AddrVal[a]))
+		}
+		b.Emit(isa.Inst{Op: lop, Rd: x, Rs1: a, Imm: lineOff(lop.AccessSize())})
+		b.Emit(isa.Inst{Op: isa.ADDI, Rd: x, Rs1: x, Imm: b.imm12()})
+		b.Emit(isa.Inst{Op: sop, Rs2: x, Rs1: a, Imm: lineOff(sop.AccessSize())})
+		b.Tag("rmw")
 	case 6: // WAR behind a stalled reader: the older reader of y waits for a load
 		y := b.Dst()
 		l := b.Dst()
